@@ -7,11 +7,14 @@ type R struct{ s uint64 }
 
 func New(seed uint64) *R { return &R{s: seed} }
 
-// ForCase returns the generator of case k under the given run seed.
+// ForCase returns the generator of case k under the given run seed. Seed and case index are
+// mixed through the splitmix64 finaliser twice, so that the streams of different cases are
+// unrelated (deriving the state as seed ^ C*(k+1) made case k+2 the same stream as case k shifted
+// by two draws, because the generator itself advances by C per draw).
 func ForCase(seed uint64, k int) *R {
-	r := New(seed ^ (0x9e3779b97f4a7c15 * uint64(k+1)))
-	r.U64()
-	return r
+	a := New(seed).U64()
+	b := New(a ^ ((uint64(k) + 1) * 0xd1342543de82ef95)).U64()
+	return New(b)
 }
 
 func (r *R) U64() uint64 {
